@@ -97,6 +97,7 @@ fn run_tokens(toks: &[&str]) -> String {
         "OPS" => chan_ops::ops(args),
         "OPSA" => chan_ops::ops(args), // model side: update_extensions written with the block-level operations
         "API" => chan_api::api(args),
+        "OPSX" => chan_ops::ops(args), // megabyte-sized payloads: implementation only (the model answers NA), judged by the oracle
         "CLI" => chan_cli::cli(args),
         "ID" => chan_id::id(args),
         "IDPAIR" => chan_id::idpair(args),
@@ -109,6 +110,7 @@ fn run_tokens(toks: &[&str]) -> String {
         "SRB" => chan_adm::srb(args),
         "CORR" => chan_corrupt::corr(args),
         "JSON" => chan_json::json(args),
+        "JSONX" => chan_json::json(args), // megabyte-sized bundles: implementation only (the model answers NA), judged by the oracle
         "JTOK" => chan_json::jtok(args),
         "JSONDEC" => chan_json::jsondec(args),
         "IPPT" => chan_sec::ippt(args),
